@@ -53,23 +53,35 @@ def judgeMux (d : DictRt) (i : Intern) (regsTok msgTok : String) (impl : List St
 /-- `mux seq ops=<reg|d:app:code:R,...> => <out>,<out>,...`: registrations and dispatches interleaved
     on one mux (registering a key again after it was used must still replace the handler) -/
 def judgeMuxSeq (d : DictRt) (i : Intern) (opsTok : String) (impl : List String) : Intern × Judged :=
+  -- `p:` is a dispatch whose handler panics (recovered by the caller, as conn.serve does): the
+  -- decision is the same, marked `!`; the first registration after it must go through (`+`):
+  -- `ServeDIAM` releases its read lock however the handler returns (C15_mux_lock)
+  let mark := fun (outs : List String) => match outs.reverse with
+    | last :: rest => if last.endsWith "!" then ((last ++ "+") :: rest).reverse else outs
+    | [] => outs
   let step := fun (acc : Intern × List Reg × List String × List String) (t : String) =>
     let (i0, regs, mouts, souts) := acc
     match t.splitOn ":" with
-    | ["d", a, c, r] =>
-      let app := a.toNat?.getD 0
-      let code := c.toNat?.getD 0
-      let req := r = "R"
-      let short := (d.findCommand app code).map (·.short)
-      (i0, regs, mouts ++ [showDispatch ((Mux.ofRegs regs).dispatch short app code req)],
-        souts ++ [showDispatch (Spec.dispatch regs short app code req)])
+    | [k, a, c, r] =>
+      if k = "d" ∨ k = "p" then
+        let app := a.toNat?.getD 0
+        let code := c.toNat?.getD 0
+        let req := r = "R"
+        let short := (d.findCommand app code).map (·.short)
+        let bang := fun (x : String) => if k = "p" ∧ x ≠ "report" then x ++ "!" else x
+        (i0, regs, mouts ++ [bang (showDispatch ((Mux.ofRegs regs).dispatch short app code req))],
+          souts ++ [bang (showDispatch (Spec.dispatch regs short app code req))])
+      else
+        let (i1, r) := parseReg i0 t
+        (i1, (match r with | some r => regs ++ [r] | none => regs), mark mouts, mark souts)
     | _ =>
       let (i1, r) := parseReg i0 t
-      (i1, (match r with | some r => regs ++ [r] | none => regs), mouts, souts)
+      (i1, (match r with | some r => regs ++ [r] | none => regs), mark mouts, mark souts)
   let (i', regs, mouts, souts) := (opsTok.splitOn ",").foldl step (i, [], [], [])
   let implOut := impl.headD ""
   (i', { model := ",".intercalate mouts,
-         fails := if implOut ≠ ",".intercalate souts then ["C09:dispatch-sequence-differs"] else [],
-         tags := [s!"seq regs={regs.length} dispatches={souts.length}"] })
+         fails := (if implOut ≠ ",".intercalate souts then ["C09:dispatch-sequence-differs"] else []) ++
+                  (if (implOut.splitOn ",").contains "registration-stuck" then ["C09:registration-blocked-after-a-handler-panicked", "C15:mux-lock-held-after-a-handler-panicked"] else []),
+         tags := [s!"seq regs={regs.length} dispatches={souts.length}{if (opsTok.splitOn ",").any (·.startsWith "p:") then " panics" else ""}"] })
 
 end DV.Drv
